@@ -78,6 +78,9 @@ func smallScenarios() []smallScenario {
 		"link " + h("/d/f") + " " + h("/e/h"), "link " + h("/lf") + " " + h("/e/k"), "removeall " + h("/d"), "removeall " + h("/ld"), "mkdirall " + h("/e/x/y") + " 493",
 		"mkdirall " + h("/ld/p/q") + " 493", "writefile " + h("/ld/w") + " " + h("W") + " 420", "readfile " + h("/lf"), "readdir " + h("/ld"), "lstat " + h("/e/l"),
 		"truncate " + h("/lf") + " 0", "chmod " + h("/ld") + " 448", "symlink " + h("../e") + " " + h("/d/up"), "stat " + h("/d/up/f"),
+		// the current directory entered through a link; links whose whole target is "." or ".."
+		"chdir " + h("/ld"), "getwd", "mkdir " + h("n2") + " 493", "stat " + h("../e"), "symlink " + h("..") + " " + h("/d/dd"), "stat " + h("/d/dd/e"),
+		"symlink " + h(".") + " " + h("/d/here"), "readdir " + h("/d/here"),
 		// operands BELOW a regular file
 		"mkdirall " + h("/d/f/x") + " 493", "mkdir " + h("/d/f/x") + " 493", "writefile " + h("/d/f/x") + " " + h("X") + " 420", "remove " + h("/d/f/x"),
 	}
@@ -118,7 +121,17 @@ func smallScenarios() []smallScenario {
 	rpAlpha := []string{"chmod " + h("/") + " 384", "chmod " + h("/") + " 457", "chmod " + h("/") + " 493", "setuser 1001 1001 0", "setuser 0 0 1",
 		"stat " + h("/"), "lstat " + h("/"), "readdir " + h("/"), "stat " + h("/tmp"), "chmod " + h("/tmp") + " 448", "mkdir " + h("/tmp/x") + " 493",
 		"chdir " + h("/tmp"), "stat " + h("."), "stat " + h(".."), "openfile " + h("/") + " 0 0"}
+	// Glob with escaped characters (a pattern whose only special characters are backslash escapes still needs matching),
+	// classes, multi-level patterns
+	geSetup := []string{"writefile " + h("/g/a*") + " " + h("1") + " 420", "writefile " + h("/g/ab") + " " + h("2") + " 420", "mkdirall " + h("/g/d[1]") + " 493",
+		"writefile " + h("/g/d[1]/f") + " " + h("3") + " 420", "mkdirall " + h("/g/dd") + " 493", "writefile " + h("/g/dd/f") + " " + h("4") + " 420"}
+	geSetup = append([]string{"mkdirall " + h("/g") + " 493"}, geSetup...)
+	var geAlpha []string
+	for _, pat := range []string{"/g/a\\*", "/g/\\ab", "/g/d\\[1\\]/f", "/g/d\\[1\\]/*", "/g/d\\[1]/\\f", "/g/a*", "/g/d[1]/f", "/g/d*/f", "/g/*/f", "/g/d?/\\f", "/g/[a-d]*", "/g/a\\", "/g/*/[", "/g/\\a\\b", "/g\\/ab", "/*/ab", "/g/a[*]"} {
+		geAlpha = append(geAlpha, "glob "+h(strings.ReplaceAll(pat, "\\\\", "\\")))
+	}
 	return []smallScenario{
+		{"glob-escapes", geSetup, geAlpha, 1, 1},
 		{"root-perm", nil, rpAlpha, 4, 4},
 		{"views", vwSetup, vwAlpha, 3, 4},
 		{"removeall-sticky", stSetup, stAlpha, 3, 4},
@@ -129,6 +142,8 @@ func smallScenarios() []smallScenario {
 		{"file-other", append(append([]string{}, fileSetup...), "setuser 1001 1001 0"), userAlpha, 3, 4},
 		{"file-owner-readonly", append(append([]string{}, fileSetup...), "chown "+f+" 1001 1001", "chmod "+f+" 292", "setuser 1001 1001 0"), userAlpha, 3, 4},
 		{"file-group", append(append([]string{}, fileSetup...), "chown "+f+" 1002 1001", "chmod "+f+" 416", "setuser 1001 1001 0"), userAlpha, 3, 3},
+		{"file-owner-foreign-group", append(append([]string{}, fileSetup...), "chown "+f+" 1001 1002", "chmod "+f+" 416", "setuser 1001 1001 0"), userAlpha, 2, 3},
+		{"file-owner-other-only", append(append([]string{}, fileSetup...), "chown "+f+" 1001 1002", "chmod "+f+" 63", "setuser 1001 1001 0"), userAlpha, 2, 3},
 		{"dir-handle", []string{"mkdir " + d + " 493", "writefile " + h("/tmp/d/a") + " " + h("A") + " 420", "openfile " + d + " 0 0"}, dirAlpha, 5, 6},
 		{"removeall-foreign-subdir", []string{"setumask 0", "mkdir " + t + " 511", "mkdir " + h("/t/k") + " 493", "writefile " + h("/t/k/x") + " " + h("X") + " 420",
 			"mkdir " + h("/keep") + " 511", "setumask 18", "setuser 1001 1001 0"}, rmAlpha, 4, 5},
